@@ -786,6 +786,7 @@ pub(crate) fn api_xnlri_of(v: &Val) -> api::Nlri {
             endpoint: l[4].bytes(),
         }),
         13 => N::RouteTargetMembership(api::RouteTargetMembershipNlri { asn: l[1].u32(), rt: api_rt_of(&l[2]) }),
+        18 => N::LsAddrPrefix(ls_addr_prefix_of(l)),
         14 => N::MupInterworkSegmentDiscovery(api::MupInterworkSegmentDiscoveryRoute {
             rd: api_rd_of(&l[1]),
             prefix: s_of(&l[2]),
@@ -842,6 +843,7 @@ pub(crate) fn api_xnlri_val(n: &api::Nlri) -> Val {
             Val::n(r.source_address_length),
             s_val(&r.source_address),
         ]),
+        Some(N::LsAddrPrefix(a)) => ls_addr_prefix_val(a),
         Some(N::MupType2SessionTransformed(r)) => Val::L(vec![
             i(17),
             api_rd_val(&r.rd),
@@ -1435,4 +1437,145 @@ pub(crate) fn ls_attr_api_val(a: &api::LsAttribute) -> Val {
         ]),
     };
     Val::L(vec![node, link, prefix, bps, Val::b(a.srv6_sid.is_some())])
+}
+
+// [18, type, protocol id, identifier, inner] LsAddrPrefix; inner = [0] no route | [1, node] | [2, local, remote, link descriptor]
+//   | [3, local, prefix descriptor] (IPv4) | [4, local, prefix descriptor] (IPv6) | [5, local, sids ([] = no information | [[text ...]]), multi-topology ids ([] | [[id ...]])]
+//   node = [] | [asn, bgp-ls id, ospf area, pseudonode, igp router id, bgp router id, confederation member]
+//   link descriptor = [] | [local id, remote id, interface v4, neighbour v4, interface v6, neighbour v6]
+//   prefix descriptor = [] | [[reachability text ...], ospf route type]
+fn ls_node_of(v: &Val) -> Option<api::LsNodeDescriptor> {
+    let l = v.list();
+    if l.is_empty() {
+        return None;
+    }
+    Some(api::LsNodeDescriptor {
+        asn: l[0].u32(),
+        bgp_ls_id: l[1].u32(),
+        ospf_area_id: l[2].u32(),
+        pseudonode: l[3].bool(),
+        igp_router_id: s_of(&l[4]),
+        bgp_router_id: s_of(&l[5]),
+        bgp_confederation_member: l[6].u32(),
+    })
+}
+fn ls_node_val(n: &Option<api::LsNodeDescriptor>) -> Val {
+    match n {
+        None => Val::L(vec![]),
+        Some(n) => Val::L(vec![
+            Val::n(n.asn),
+            Val::n(n.bgp_ls_id),
+            Val::n(n.ospf_area_id),
+            Val::b(n.pseudonode),
+            s_val(&n.igp_router_id),
+            s_val(&n.bgp_router_id),
+            Val::n(n.bgp_confederation_member),
+        ]),
+    }
+}
+fn ls_pfx_desc_of(v: &Val) -> Option<api::LsPrefixDescriptor> {
+    let l = v.list();
+    if l.is_empty() {
+        return None;
+    }
+    Some(api::LsPrefixDescriptor { ip_reachability: l[0].list().iter().map(s_of).collect(), ospf_route_type: l[1].int() as i32 })
+}
+fn ls_pfx_desc_val(p: &Option<api::LsPrefixDescriptor>) -> Val {
+    match p {
+        None => Val::L(vec![]),
+        Some(p) => Val::L(vec![Val::L(p.ip_reachability.iter().map(|s| s_val(s)).collect()), Val::n(p.ospf_route_type)]),
+    }
+}
+
+pub(crate) fn ls_addr_prefix_of(l: &[Val]) -> api::LsAddrPrefix {
+    use api::ls_addr_prefix::ls_nlri::Nlri as O;
+    let x = l[4].list();
+    let inner = match x[0].int() {
+        0 => None,
+        1 => Some(O::Node(api::LsNodeNlri { local_node: ls_node_of(&x[1]) })),
+        2 => {
+            let d = x[3].list();
+            Some(O::Link(api::LsLinkNlri {
+                local_node: ls_node_of(&x[1]),
+                remote_node: ls_node_of(&x[2]),
+                link_descriptor: if d.is_empty() {
+                    None
+                } else {
+                    Some(api::LsLinkDescriptor {
+                        link_local_id: d[0].u32(),
+                        link_remote_id: d[1].u32(),
+                        interface_addr_ipv4: s_of(&d[2]),
+                        neighbor_addr_ipv4: s_of(&d[3]),
+                        interface_addr_ipv6: s_of(&d[4]),
+                        neighbor_addr_ipv6: s_of(&d[5]),
+                    })
+                },
+            }))
+        }
+        3 => Some(O::PrefixV4(api::LsPrefixV4nlri { local_node: ls_node_of(&x[1]), prefix_descriptor: ls_pfx_desc_of(&x[2]) })),
+        4 => Some(O::PrefixV6(api::LsPrefixV6nlri { local_node: ls_node_of(&x[1]), prefix_descriptor: ls_pfx_desc_of(&x[2]) })),
+        _ => {
+            let s = x[2].list();
+            let m = x[3].list();
+            Some(O::Srv6Sid(api::LsSrv6Sidnlri {
+                local_node: ls_node_of(&x[1]),
+                srv6_sid_information: if s.is_empty() {
+                    None
+                } else {
+                    Some(api::LsSrv6SidInformation { sids: s[0].list().iter().map(s_of).collect() })
+                },
+                multi_topo_id: if m.is_empty() {
+                    None
+                } else {
+                    Some(api::LsMultiTopologyIdentifier { multi_topo_ids: m[0].list().iter().map(|i| i.u32()).collect() })
+                },
+            }))
+        }
+    };
+    api::LsAddrPrefix {
+        r#type: l[1].int() as i32,
+        nlri: inner.map(|n| api::ls_addr_prefix::LsNlri { nlri: Some(n) }),
+        length: 0,
+        protocol_id: l[2].int() as i32,
+        identifier: l[3].u64(),
+    }
+}
+
+pub(crate) fn ls_addr_prefix_val(a: &api::LsAddrPrefix) -> Val {
+    use api::ls_addr_prefix::ls_nlri::Nlri as O;
+    let inner = match a.nlri.as_ref().and_then(|n| n.nlri.as_ref()) {
+        None => Val::L(vec![i(0)]),
+        Some(O::Node(n)) => Val::L(vec![i(1), ls_node_val(&n.local_node)]),
+        Some(O::Link(n)) => Val::L(vec![
+            i(2),
+            ls_node_val(&n.local_node),
+            ls_node_val(&n.remote_node),
+            match &n.link_descriptor {
+                None => Val::L(vec![]),
+                Some(d) => Val::L(vec![
+                    Val::n(d.link_local_id),
+                    Val::n(d.link_remote_id),
+                    s_val(&d.interface_addr_ipv4),
+                    s_val(&d.neighbor_addr_ipv4),
+                    s_val(&d.interface_addr_ipv6),
+                    s_val(&d.neighbor_addr_ipv6),
+                ]),
+            },
+        ]),
+        Some(O::PrefixV4(n)) => Val::L(vec![i(3), ls_node_val(&n.local_node), ls_pfx_desc_val(&n.prefix_descriptor)]),
+        Some(O::PrefixV6(n)) => Val::L(vec![i(4), ls_node_val(&n.local_node), ls_pfx_desc_val(&n.prefix_descriptor)]),
+        Some(O::Srv6Sid(n)) => Val::L(vec![
+            i(5),
+            ls_node_val(&n.local_node),
+            match &n.srv6_sid_information {
+                None => Val::L(vec![]),
+                Some(s) => Val::L(vec![Val::L(s.sids.iter().map(|t| s_val(t)).collect())]),
+            },
+            match &n.multi_topo_id {
+                None => Val::L(vec![]),
+                Some(m) => Val::L(vec![Val::L(m.multi_topo_ids.iter().map(|t| Val::n(*t)).collect())]),
+            },
+        ]),
+    };
+    Val::L(vec![i(18), Val::n(a.r#type), Val::n(a.protocol_id), Val::n(a.identifier), inner])
 }
